@@ -1209,6 +1209,8 @@ class Component(composites.Composite, metaclass=ComponentType):
         linkedDims = self._getLinkedDimsAndValues()
         composites.Composite.backUp(self)
         self._restoreLinkedDims(linkedDims)
+        # remember which dimensions were linked at this point (a stack, like the parameter backup)
+        self._linkedDimsBackup = (linkedDims, getattr(self, "_linkedDimsBackup", None))
 
     def restoreBackup(self, paramsToApply):
         """
@@ -1217,8 +1219,10 @@ class Component(composites.Composite, metaclass=ComponentType):
         This needed to be overridden due to linked components which actually have a parameter value
         of another ARMI component.
         """
-        linkedDims = self._getLinkedDimsAndValues()
+        # links made or broken since the backup are not part of the state to return to
+        self._getLinkedDimsAndValues()
         composites.Composite.restoreBackup(self, paramsToApply)
+        linkedDims, self._linkedDimsBackup = self._linkedDimsBackup
         self._restoreLinkedDims(linkedDims)
 
     def _getLinkedDimsAndValues(self):
